@@ -448,6 +448,16 @@ class Gen:
                 self.decorate(g, semantic=True)
                 lvl['groups'].append(g)
                 self.hit('group.depth%d' % (depth + 1))
+        # name coincidence between path concatenations: a sibling named `<X>_<Y>` next to a group X that has a
+        # nested group Y (the trait-level size_bytes parameter names are path-joined)
+        for g in list(lvl['groups']):
+            if g['groups'] and self.maybe(0.35):
+                clash = {'name': '%s_%s' % (g['name'], g['groups'][0]['name']), 'id': self.n + 7000,
+                         'dim': r.choice(dims), 'fields': [{'name': self.name('f'), 'id': self.n, 'type': 'uint16'}],
+                         'groups': [], 'datas': []}
+                pos = lvl['groups'].index(g) + (0 if self.maybe(0.5) else 1)
+                lvl['groups'].insert(pos, clash)
+                self.hit('group.path_name_coincidence')
         for _ in range(r.choice([0, 0, 1, 2, 3, 4])):
             lvl['datas'].append(self.decorate({'name': self.name('d'), 'id': self.n, 'type': r.choice(datas)}))
             self.hit('data.depth%d' % depth)
